@@ -60,6 +60,8 @@ func c13Scenarios() []c13Scenario {
 
 const c13Watch = 30 * time.Second
 
+var stuckSeen = map[string]int{}
+
 func childC13(args []string) {
 	_, seed, from, to, out, _ := childArgs(args)
 	defer out.finish()
@@ -68,6 +70,10 @@ func childC13(args []string) {
 	defer os.RemoveAll(dir)
 	for i := from; i < to; i++ {
 		sc := scs[i%len(scs)]
+		if stuckSeen[sc.Worker+"/"+sc.State] >= 2 {
+			out.add("scenarios_skipped_after_repeated_stuck_verdicts", 1)
+			continue // two witnesses of this hang are enough; each costs a full watchdog
+		}
 		out.begin(i, fmt.Sprintf("%s/%s/cap=%d", sc.Worker, sc.State, sc.Cap))
 		if sc.Worker == "read" {
 			c13Read(seed, i, sc, out)
@@ -202,6 +208,7 @@ func c13Ingest(seed int64, i int, sc c13Scenario, dir string, out *childOut) {
 	case <-time.After(c13Watch):
 		stuck, why := classifyStacks(vlib.AllStacks(), fn)
 		if stuck {
+			stuckSeen[sc.Worker+"/"+sc.State]++
 			out.violation(sig+":stuck-after-cancel", fmt.Sprintf("worker still parked %s after cancel: %s", c13Watch, why), wit)
 		} else {
 			out.inconclusive(sig + ": no return within the watchdog but worker not parked: " + why)
